@@ -10,24 +10,35 @@ pub struct Corpus {
     nt: usize,
     pub max: usize,
     total: u64,
+    /// a corpus given as an explicit program list instead of a grammar
+    fixed: Option<Vec<E>>,
 }
 
 impl Corpus {
     fn new(name: &'static str, mut g: Grammar, nt: usize, max: usize) -> Corpus {
         g.prepare(max);
         let total = g.count_upto(nt, max) as u64;
-        Corpus { name, g, nt, max, total }
+        Corpus { name, g, nt, max, total, fixed: None }
+    }
+    pub fn from_list(name: &'static str, list: Vec<E>) -> Corpus {
+        Corpus { name, g: Grammar::new(1), nt: 0, max: 0, total: list.len() as u64, fixed: Some(list) }
     }
     pub fn len(&self) -> u64 {
         self.total
     }
     pub fn program(&self, i: u64) -> E {
+        if let Some(list) = &self.fixed {
+            return list[i as usize].clone();
+        }
         let mut e = self.g.nth(self.nt, i as u128);
         let mut n = 1;
         number_nested(&mut e, &mut n);
         e
     }
     pub fn count_of_size(&self, n: usize) -> u64 {
+        if self.fixed.is_some() {
+            return if n == 0 { self.total } else { 0 };
+        }
         self.g.count(self.nt, n) as u64
     }
 }
@@ -387,4 +398,54 @@ pub fn inputs() -> Vec<(&'static str, V)> {
         ("(:a = 1, 7)", V::List(vec![V::pair(V::sym("a"), V::Int(1)), V::Int(7)])),
         ("0", V::Int(0)),
     ]
+}
+
+/// T6: block endings - the C10 family (every core operator as the last thing evaluated by the right operand of
+/// && / ||, by conditional arms and conditions, under ! and ^^) with its leaves replaced by literal atoms, in three
+/// rotations of the atom pool so that each position sees truthy and falsy, number and non-number values
+pub fn t6() -> Corpus {
+    fn fill(e: &mut E, pool: &[E], next: &mut usize) {
+        match e {
+            E::Ident(n) if n == "?" => {
+                *e = pool[*next % pool.len()].clone();
+                *next += 1;
+            }
+            E::Bin(_, l, r) => {
+                fill(l, pool, next);
+                fill(r, pool, next);
+            }
+            E::Pre(_, x) | E::Group(x) | E::Suf(_, x) | E::Prop(x, _) => fill(x, pool, next),
+            E::SpaceList(items) | E::CommaList(items) => {
+                for i in items {
+                    fill(i, pool, next);
+                }
+            }
+            E::Cond(arms, d) => {
+                for (_, c, a) in arms {
+                    fill(c, pool, next);
+                    fill(a, pool, next);
+                }
+                if let Some(d) = d {
+                    fill(d, pool, next);
+                }
+            }
+            _ => {}
+        }
+    }
+    let pools: [Vec<E>; 4] = [
+        vec![E::Int(1), E::Int(2), E::Int(3), E::Int(4), E::Int(5)],
+        vec![E::Int(1), E::False, E::Int(3), E::Val, E::Int(2)],
+        vec![E::False, E::Int(1), E::Unit, E::Int(2), E::Val],
+        vec![E::Int(1), E::Int(2), E::False, E::Unit, E::Int(3)],
+    ];
+    let mut list = vec![];
+    for p in crate::props::c10::ending_programs() {
+        for pool in &pools {
+            let mut e = p.clone();
+            let mut n = 0;
+            fill(&mut e, pool, &mut n);
+            list.push(e);
+        }
+    }
+    Corpus::from_list("T6", list)
 }
